@@ -212,6 +212,11 @@ def run(f, fixture, rep, cfg, tier):
             if not (re.search(r"<impl \[T\]>::get\(.*RangeFrom::RangeFrom\{1_usize\}\)", r) or re.search(r"Index::index\(.*RangeFrom::RangeFrom\{1_usize\}\)", r)):
                 ok = False
                 why = "after an item the cursor continues at %s" % r[:160]
+            # ... and on every path: a fallback to the un-advanced remainder (`get(1..).unwrap_or(rest)`) lets the loop stand
+            # still on the terminator - it then yields empty strings without consuming input, as many as the entry's count says
+            if re.match(r"^std::option::Option::<T>::(unwrap_or|unwrap_or_else|unwrap_or_default|map_or|map_or_else)\(", r) or r.startswith("phi("):
+                ok = False
+                why = "the step over the terminator has a fallback that does not advance (%s)" % r[:120]
         rep.check(ok, "R2", "string-loop|%d" % n, "string-list loop %d steps over the NUL terminator after each item" % n,
                   "a string-list loop does not skip the NUL terminator between items (%s): every later item decodes wrongly" % why, c.loc())
     rep.floor("R2", "string-list loops in parse_header", n, 1)
@@ -311,6 +316,27 @@ def run(f, fixture, rep, cfg, tier):
     rep.check(okscan or loops_over, "R3", "find_entry|scan", "find_entry_or_err scans the whole index for an entry whose tag equals the requested one",
               "find_entry_or_err no longer scans the index with a tag-equality predicate (calls: %s)" % sorted({c.decl.rsplit("::", 2)[-1] for c in fe.calls()})[:8], fe.span)
     rep.check(errs == {"TagNotFound"}, "R3", "find_entry|error", "an absent tag is TagNotFound", "find_entry_or_err yields %s" % sorted(errs), fe.span)
+
+    # ---- R8 accessors hand the stored lists on as they are ----------------------------------------------------------
+    # no accessor re-orders, de-duplicates, filters or truncates what it decoded: item i of the result is item i of the header
+    rep.rule("R8", "accessors do not reorder / dedup / filter the stored lists")
+    RESHAPE = r"::(dedup\w*|sort\w*|reverse|retain\w*|truncate|swap_remove|drain|rotate_\w+|split_off)(?:::<|$)|itertools::Itertools::(unique\w*|dedup\w*|sorted\w*)|Iterator::(filter|skip|take|step_by|rev|skip_while|take_while)$"
+    acc_bodies = [b for b in f.body_list if (b.impl_self or "").endswith("package::PackageMetadata") and not b.derived]
+    work, seen_acc = list(acc_bodies), set()
+    n_acc_calls = 0
+    while work:
+        b = work.pop()
+        if b.path in seen_acc:
+            continue
+        seen_acc.add(b.path)
+        work += f.closures_of(b)
+        for c in b.calls():
+            n_acc_calls += 1
+            m = re.search(RESHAPE, c.decl)
+            if m:
+                rep.finding("R8", "reshape|%s|%s" % (fmt_key(b.path), c.decl.rsplit("::", 1)[-1]),
+                            "%s applies %s to a list on an accessor path: the result no longer corresponds position by position to what the header stores" % (b.path, c.decl), c.loc())
+    rep.floor("R8", "calls scanned on accessor paths", n_acc_calls, 200)
 
     # ---- R7 tag numbers -----------------------------------------------------------------------------------------
     rep.rule("R7", "tag numbers equal rpm's (rpmtag.h)")
